@@ -116,6 +116,25 @@ func Selftest(c *Ctx) int {
 			}
 			return lines
 		})
+	// the padded events of C04 (an unknown field of up to 70001 bytes in the evolved message): one more byte reported as consumed
+	bind("evolve-padded-consumed-off", &WireSpec{GenModule: "Gen_Evolve", GenInvs: []string{"Export"}, Op: "decref", JudgeProp: "C04", DevProps: []string{"C04"}, Level: "model_checking",
+		CaseFilter: func(s *wireSchema, cs *wireCase) bool { return cs.Sid%41 == 3 }},
+		func(lines [][]byte) [][]byte {
+			key := []byte(`"consumed":`)
+			for i, ln := range lines {
+				if !bytes.HasPrefix(ln, []byte(`{"ev":"padded"`)) {
+					continue
+				}
+				if j := bytes.Index(ln, key); j >= 0 {
+					k := j + len(key)
+					n := append([]byte{}, ln[:k]...)
+					n = append(n, '9')
+					lines[i] = append(n, ln[k:]...)
+					return lines
+				}
+			}
+			return lines
+		})
 	if failed > 0 {
 		fmt.Printf("selftest: %d FAILED\n", failed)
 		return 1
